@@ -20,6 +20,9 @@ def lengths(tier):
             if b + d >= 0: ls.add(b + d)
         b += 65536
     ls.add(maxflash)
+    # beyond the table: the default device (no .device line) has 8 MiB of flash; the 16th 64 KiB
+    # block is where a 16-bit segment value would wrap
+    ls |= {1048576 - 1, 1048576, 1048576 + 1, 1048576 + 17}
     if tier == 'thorough':
         ls |= set(range(600, 70000, 7)) | {524288, 524288 + 5}
     return sorted(ls), maxflash
@@ -57,7 +60,7 @@ def run(tier, seed, model_ok):
                         'image_head': vlib.hx(img[:32]), 'impl': impl[str(i)][:160], 'expected': 'MATCH', 'key': 'len%d' % len(img)})
     return {
         'evaluations': len(imgs), 'distinct_nontrivial': len({(len(i), i[:64]) for i in imgs}) - 1,
-        'rule': 'every image length 0..599, every length within 17 bytes of each multiple of 64 KiB up to the largest flash of the device table (%d bytes) + 64 KiB, contents random / zero / 0xff / counting (seeded); both writers (code and EEPROM) on the same image; distinct = distinct (length, head) pairs, the empty image not counted as non-trivial' % maxflash,
+        'rule': 'every image length 0..599, every length within 17 bytes of each multiple of 64 KiB up to the largest flash of the device table (%d bytes) + 64 KiB, plus 1 MiB -1/+0/+1/+17 (default device), contents random / zero / 0xff / counting (seeded); both writers (code and EEPROM) on the same image; distinct = distinct (length, head) pairs, the empty image not counted as non-trivial' % maxflash,
         'samples': [{'length': len(imgs[5]), 'bytes': vlib.hx(imgs[5])}, {'length': len(imgs[-1])}],
         'exhaustive': False,
         'distribution': {'lengths': len(ls), 'max_length': ls[-1], 'over_64k': sum(1 for l in ls if l > 65536)},
